@@ -526,22 +526,39 @@ class KeyOverTime:
         self.decl = dict(DECL)[dname]
         self.jwk = kind_jwk(kind)
         self.MENU = OPS_FOR[self.jwk["kty"]] + [("in-a-key-set:" + a, e, o) for a, e, o in OPS_FOR[self.jwk["kty"]][:4]]
+        if via == "jwk-members":
+            # the caller still holds the dict it imported the key from, and goes on using it (as a template, to blank it, ...)
+            self.MENU += [("caller-edits-its-dict", None, e) for e in ("clear()", "pop(use/key_ops)", "use/key_ops replaced", "update(other key's members)")]
         self.replay_id = {"cls": "KeyOverTime", "kind": kind, "private": private, "dname": dname, "via": via}
         self._base = {}
 
     def make(self):
         src = self.jwk if self.private else rjwk.public_of(self.jwk)
+        source = None
         if self.via == "jwk-members":
-            key = A.jkey({**src, **copy.deepcopy(self.decl)}, "dict")
+            source = {**src, **copy.deepcopy(self.decl)}
+            key = A.jkey(source, "dict", private=self.private, same_object=True)
         else:
             key = A.jkey(dict(src), "pem" if self.jwk["kty"] != "oct" else "bytes", self.private, copy.deepcopy(self.decl))
         from joserfc.jwk import KeySet
-        return {"key": key, "set": KeySet([key])}
+        return {"key": key, "set": KeySet([key]), "source": source}
 
     def apply(self, st, op):
         from joserfc import jws, jwe
         alg, enc, what = op
         key = st["key"]
+        if alg == "caller-edits-its-dict":
+            d = st["source"]
+            if what == "clear()":
+                d.clear()
+            elif what == "pop(use/key_ops)":
+                d.pop("use", None)
+                d.pop("key_ops", None)
+            elif what == "use/key_ops replaced":
+                d["use"], d["key_ops"] = ("enc", ["encrypt", "decrypt", "wrapKey", "unwrapKey", "deriveKey"]) if self.decl.get("use") != "enc" and "sign" not in str(self.decl) else ("sig", ["sign", "verify"])
+            else:
+                d.update({k: v for k, v in kind_jwk(self.kind, 3).items()})
+            return ("edited",)
         if alg.startswith("in-a-key-set:"):
             alg = alg.split(":", 1)[1]
             key = st["set"]
@@ -560,7 +577,7 @@ class KeyOverTime:
 
     def canon(self, st):
         from ..history import canon_state
-        return (self.kind, self.private, self.dname, self.via, canon_state(st["key"], st["set"], prefix="joserfc.no-module-state"))
+        return (self.kind, self.private, self.dname, self.via, canon_state(st["key"], st["set"], st["source"], prefix="joserfc.no-module-state"))
 
     def bucket(self, obs):
         return ":".join(obs)
@@ -572,6 +589,8 @@ class KeyOverTime:
 
     def check(self, hist, op, obs, st):
         alg, enc, what = op
+        if alg == "caller-edits-its-dict":
+            return []
         a = alg.split(":", 1)[1] if alg.startswith("in-a-key-set:") else alg
         vs = []
         why = suitable(a, enc or "A128GCM", self.jwk, self.decl, what, self.private)
@@ -600,6 +619,46 @@ def key_histories(tier):
             total.merge(st)
     total.extra = {"per_key": extra}
     return total
+
+
+# ------------------------------------------------------------------ a JSON encryption object retried after a refusal
+RETRY_ALGS = [("dir", "oct16"), ("A128KW", "oct16"), ("RSA-OAEP", "rsa"), ("ECDH-ES+A128KW", "P-256")]
+
+
+def h_retry(ctx):
+    """encrypt_json on an object whose recipient has no key yet is refused because the key handed over is declared for signatures; the
+    caller calls again on the SAME object - with the same key, with a suitable key, with a key set, with nothing. A token comes out
+    only if the key it is made with is suitable."""
+    from joserfc import jwe
+    from joserfc.jwk import KeySet
+    alg, kind = ctx.choose("alg/key", RETRY_ALGS)
+    cls_name = ctx.choose("object", ["GeneralJSONEncryption", "FlattenedJSONEncryption"])
+    bad_decl = ctx.choose("first_key_declares", [{"use": "sig"}, {"key_ops": ["sign", "verify"]}])
+    second = ctx.choose("second_call_with", ["the same key", "a suitable key", "None", "a key set holding only the unsuitable key"])
+    bad_jwk, good_jwk = kind_jwk(kind, 0), kind_jwk(kind, 1)
+    pub = lambda j: j if j["kty"] == "oct" else rjwk.public_of(j)  # noqa
+    bad = A.jkey({**pub(bad_jwk), **bad_decl}, "dict")
+    good = A.jkey(pub(good_jwk), "dict")
+    if not suitable(alg, "A128GCM", bad_jwk, bad_decl, "encrypt", False):
+        return Outcome("n/a", [], nontrivial=None)        # this declaration does not make the key unsuitable for this algorithm
+    obj = getattr(jwe, cls_name)({"enc": "A128GCM"}, b"plaintext")
+    obj.add_recipient({"alg": alg})
+    algs = [alg, "A128GCM"]
+    vs = []
+    r1 = call(jwe.encrypt_json, obj, bad, algorithms=algs)
+    if r1.ok:
+        vs.append(viol("JWE encrypt succeeds with an unsuitable key [declared use / key_ops] (JSON object, first call)", f"{alg} {cls_name}: key declares {bad_decl}"))
+    arg = {"the same key": bad, "a suitable key": good, "None": None, "a key set holding only the unsuitable key": KeySet([A.jkey({**pub(bad_jwk), **bad_decl}, "dict")])}[second]
+    r2 = call(jwe.encrypt_json, obj, arg, algorithms=algs)
+    if r2.ok:
+        made_with_good = False
+        try:
+            made_with_good = rjwe.decrypt(r2.value, good_jwk)[0] == b"plaintext"
+        except Exception:  # noqa
+            pass
+        if not (second == "a suitable key" and made_with_good):
+            vs.append(viol("JWE encrypt succeeds with an unsuitable key after an earlier call on the same object was refused", f"{alg} {cls_name}: first key declares {bad_decl}; second call with {second}"))
+    return Outcome(f"retry:{'refused' if not r1.ok else 'ACCEPTED'}:{'ok' if r2.ok else 'rej'}", vs, nontrivial=(alg, cls_name, repr(bad_decl), second))
 
 
 # ------------------------------------------------------------------ E3: the first uses of one key object, at the same time
@@ -658,6 +717,7 @@ PARTS = [
     Part("jwe-keys", h_jwe, split_depth=3, budget={"quick": 1500, "thorough": 2400}),
     Part("ecdh-cross-curve", h_ecdh_cross, split_depth=2),
     Part("one-key-over-time", custom=key_histories, engine="E2"),
+    Part("json-object-retried-after-a-refusal", h_retry, split_depth=2),
     Part("thread-schedules", h_threads, bound={"quick": 1, "thorough": 2}, split_depth=2, budget={"quick": 2000, "thorough": 3000}, engine="E3"),
     _pc, _po,
 ]
